@@ -25,12 +25,13 @@ theorem accumulate_refines (g : List (Key × Sid × Vec α)) (H : Heap α) (hU :
       fun k => match g.find? (·.1 == k) with
                | some e => accum (H.abs k) e.2.2
                | none => H.abs k := by
-  sorry
+  funext k
+  exact accumulateH_abs g H hU hnd k
 
 /-- the invariant is preserved: after the call no two `.grad`s share storage -/
 theorem accumulate_preserves_unaliased (g : List (Key × Sid × Vec α)) (H : Heap α)
     (hU : H.Unaliased) : (accumulateH true g H).Unaliased := by
-  sorry
+  exact accumulateH_unaliased g H hU
 
 /-- a freshly created `.grad` lives in a storage that did not exist before the call: it shares memory
     with no other tensor — in particular not with the aggregator's output or the engine's gradients
@@ -38,18 +39,19 @@ theorem accumulate_preserves_unaliased (g : List (Key × Sid × Vec α)) (H : He
 theorem created_grad_is_fresh (g : List (Key × Sid × Vec α)) (H : Heap α) (hU : H.Unaliased)
     (hnd : (g.map (·.1)).Nodup) (e : Key × Sid × Vec α) (he : e ∈ g) (hnone : H.grad e.1 = none) :
     ∃ s v, (accumulateH true g H).grad e.1 = some (s, v) ∧ H.next ≤ s := by
-  sorry
+  have _ := hnd   -- not needed: freshness holds even with repeated keys
+  exact accumulateH_created_fresh g H hU e he hnone
 
 /-- an existing `.grad` is updated in place: same storage before and after -/
 theorem existing_grad_keeps_storage (g : List (Key × Sid × Vec α)) (H : Heap α) (hU : H.Unaliased)
     (k : Key) (s : Sid) (v : Vec α) (hk : H.grad k = some (s, v)) :
     ∃ v', (accumulateH true g H).grad k = some (s, v') := by
-  sorry
+  exact accumulateH_keeps_storage g H hU k s v hk
 
 /-- FRAME on the heap: a `.grad` that is not requested keeps storage and content -/
 theorem frame_heap (g : List (Key × Sid × Vec α)) (H : Heap α) (hU : H.Unaliased) (k : Key)
     (hk : k ∉ g.map (·.1)) : (accumulateH true g H).grad k = H.grad k := by
-  sorry
+  exact accumulateH_frame g H hU k hk
 
 /-- WHY `clone()` IS NEEDED: without it, two parameters whose gradients are views of the same
     aggregated vector end up sharing storage -/
@@ -57,13 +59,20 @@ theorem noclone_aliases :
     let H : Heap Int := { grad := fun _ => none, next := 5 }
     let g : List (Key × Sid × Vec Int) := [(0, 4, [1, 2]), (1, 4, [3])]
     (accumulateH true g H).Unaliased ∧ ¬ (accumulateH false g H).Unaliased := by
-  sorry
+  intro H g
+  refine ⟨?_, ?_⟩
+  · apply accumulateH_unaliased
+    exact ⟨fun j k s v s' v' hj => (by cases hj), fun j s v hj => (by cases hj)⟩
+  · intro hU
+    have h0 : (accumulateH false g H).grad 0 = some (4, [1, 2]) := by decide
+    have h1 : (accumulateH false g H).grad 1 = some (4, [3]) := by decide
+    exact absurd (hU.1 0 1 4 _ 4 _ h0 h1 rfl) (by decide)
 
 /-- user operations on a non-aliased heap touch only the `.grad` they name -/
 theorem user_op_frame [Zero α] (H : Heap α) (hU : H.Unaliased) (op : UserOp α) (k : Key)
     (hk : match op with | .zero j => j ≠ k | .setNone j => j ≠ k | .addConst j _ => j ≠ k) :
     (H.user op).grad k = H.grad k ∧ (H.user op).Unaliased := by
-  sorry
+  exact user_frame H hU op k hk
 
 end heap
 
@@ -75,7 +84,7 @@ variable {α : Type} [Semiring α]
 theorem backward_frame (E : Engine α) (tensors inputs : List Key) (A : Mat α → Except Err (Vec α))
     (chunk : Option Int) (retain : Bool) (h : Grads α) (k : Key) (hk : k ∉ inputs) :
     (backward E tensors inputs A chunk retain h).grads k = h k := by
-  sorry
+  exact backward_frame' E tensors inputs A chunk retain h k hk
 
 /-- FRAME for `mtl_backward`, unconditionally -/
 theorem mtl_frame (E : Engine α) (ndim : Key → Nat) (losses features : List Key)
@@ -83,7 +92,7 @@ theorem mtl_frame (E : Engine α) (ndim : Key → Nat) (losses features : List K
     (chunk : Option Int) (retain : Bool) (h : Grads α) (k : Key)
     (hk : k ∉ shared) (hk' : k ∉ tps.flatten) :
     (mtlBackward E ndim losses features tps shared A chunk retain h).grads k = h k := by
-  sorry
+  exact mtl_frame' E ndim losses features tps shared A chunk retain h k hk hk'
 
 /-- REPEAT: `n` identical calls on a retained graph with a deterministic aggregator yield the
     single-call update accumulated `n` times, for every `n` and every initial `.grad` -/
@@ -95,12 +104,14 @@ theorem backward_repeat (E : Engine α) (tensors inputs : List Key)
     (Nat.iterate (fun g => (backward E tensors inputs A chunk retain g).grads) n h) k =
       if k ∈ inputs then Nat.iterate (fun g => accum g (sliceOf E.numel inputs k v)) n (h k)
       else h k := by
-  sorry
+  exact iterate_accum (fun g => (backward E tensors inputs A chunk retain g).grads) inputs
+    (fun k => sliceOf E.numel inputs k v)
+    (fun g k => (backward_eq_spec E tensors inputs A chunk retain g hv hne v hA hlen).2 k) n h k
 
 /-- accumulation adds to an existing `.grad` and creates an absent one (never replaces) -/
 theorem accum_spec (old : Option (Vec α)) (v : Vec α) :
     accum old v = match old with | some g => some (vadd g v) | none => some v := by
-  sorry
+  rfl
 
 end abstract
 
